@@ -34,7 +34,8 @@ Failure keys (fixed; tool + enclosing construct of the selection, never the inpu
   enclosing the selection) and, for the shadowing templates (an inner binder of the selection has the name of an
   enclosing local that another part of the selection reads; every arm / branch is executed):
   shadow/match-arm-payload shadow/arm-let shadow/if-branch-let shadow/closure-param shadow/for-variable
-  shadow/local-named-like-function.
+  shadow/local-named-like-function; and for the else templates: else-if/condition (the condition of an `else if`: the
+  nested `if` has no braces) else-block/inner-if-condition (a braced else block whose inner `if` uses a local of the block).
 """
 import os
 import re
@@ -102,6 +103,26 @@ SHADOW_SHAPES = {
                      "[if %(v)s > 5 { for %(w)s in [1] { let z9 = %(w)s }\n    %(w)s } else { 0 }, %(w)s]"],
     "local-named-like-function": ["helper + %(v)s", "[helper, %(w)s]"],
 }
+
+
+def gen_elseif_program(rng):
+    """`else if` chains (the nested `if` has no braces of its own: a variable extracted from its condition needs
+    them) and braced `else` blocks whose inner `if` condition uses a local of that block; every branch is executed."""
+    k = rng.randrange(4)
+    if k == 0:
+        body, sel, key = "if a { 1 } else if b > 3 { 2 } else { 3 }", "b > 3", "else-if/condition"
+    elif k == 1:
+        body, sel, key = "if a { 1 } else if b > 5 { 2 } else if b > 1 { 4 } else { 3 }", rng.choice(["b > 5", "b > 1"]), "else-if/condition"
+    elif k == 2:
+        body, sel, key = ("if a { 1 } else { let half = b / 2\n    if half > 3 { 2 } else { 3 } }",
+                          rng.choice(["half > 3", "half"]), "else-block/inner-if-condition")
+    else:
+        body, sel, key = ("if a { 1 } else {\n    let half = b / 2\n    if half > 1 { half } else if half + b > 2 { 7 } else { 3 }\n  }",
+                          rng.choice(["half > 1", "half + b > 2", "half + b"]), "else-block/inner-if-condition")
+    src = ("fun f(a, b) {\n  %s\n}\n" % body +
+           "".join("println(string_repr(f(%s, %d)))\n" % (x, y) for x in ("True", "False") for y in (0, 3, 5, 8, 12)))
+    start = src.index(sel, src.index("if ", src.index("else")))
+    return src, key, (start, start + len(sel))
 
 
 def gen_shadow_program(rng):
@@ -200,6 +221,10 @@ def run(ctx):
         src, shape, span = gen_shadow_program(rng)
         forced[len(srcs)] = (shape, span)
         srcs.append(src)
+    for _ in range(ctx.scale(40, 400)):
+        src, shape, span = gen_elseif_program(rng)
+        forced[len(srcs)] = (shape, span)
+        srcs.append(src)
     n = len(srcs)
     r = ctx.garden_batch(["astq " + hexs(s) for s in srcs] + ["astx " + hexs(s) for s in srcs] +
                          [RC.run_line(s) for s in srcs])
@@ -272,7 +297,9 @@ def run(ctx):
             ctx.fail("C20/%s/refused/%s" % (tname, cx), "%s refused a pure expression: %s" % (tool, txt), **rep)
             continue
         stat["ok"] += 1
-        if tool == "extract_variable":
+        if tool == "extract_variable" and src.encode()[:int(stmt[3])].rstrip().endswith(b"else"):
+            stat["else-if-needs-braces"] = stat.get("else-if-needs-braces", 0) + 1      # no exact text expectation
+        elif tool == "extract_variable":
             b = src.encode()
             s0 = int(stmt[3])
             col = s0 - (b.rfind(b"\n", 0, s0) + 1)
